@@ -86,14 +86,10 @@ for _p, _r in {
     'C03': 'check not built yet',
     'C04': 'check not built yet',
 
-    'C09': 'check not built yet',
-    'C10': 'check not built yet',
-    'C11': 'check not built yet',
     'C12': 'check not built yet',
     'C13': 'check not built yet',
     'C14': 'interleavings of concurrent processes: sequential contract-based VCs cannot quantify over schedules and no '
            'concurrency logic/verifier is available (DESIGN.md section 5, C14)',
-    'C17': 'check not built yet',
     'C20': 'check not built yet',
 }.items():
     NA[_p] = _r
@@ -110,3 +106,35 @@ bounded('C19',
         'bounded scope (shapes with <=3 positional-or-keyword and <=2 keyword-only parameters, partials fixing <=2 positionals '
         'and/or one keyword, <=4 positionals and <=3 keywords per call); no symbolic-signature proof was attempted (DESIGN.md 2).',
         TECH_B)
+
+bounded('C09',
+        'Bounded (not a proof): over all callable shapes, call forms (positional/keyword spellings, every keyword order, defaults '
+        'spelled out or omitted) and 52 keymap configurations of the stated scope, calls for which CPython binds the same values to '
+        'the same parameters get equal keys from the real key path keymap(*_keygen(f, (), *args, **kwds)).',
+        'DESIGN.md 5 C09, 3.8',
+        'bounded scope; binding ground truth = calling a stub of the same shape; that every wrapper composes rounded_args -> _keygen -> '
+        'keymap identically in the call path, key() and lookup() is proved under C18; "the second call is served from the cache" then '
+        'follows from C02\'s clause.', TECH_B)
+
+bounded('C10',
+        'Bounded (not a proof): over the same scope with value variants (1, 1.0, True, "1", (1,), b"1"), no key is shared by two calls that '
+        'CPython binds to unequal values, for every configuration the statement lists as information-preserving; typed configurations '
+        'also separate equal values of different type.',
+        'DESIGN.md 5 C10, 3.8',
+        'bounded scope; md5 digests and repr are assumed injective on the enumerated values; one known finding (flat stringmap, lone '
+        'extra positional) is listed in known_findings.json.', TECH_B)
+
+bounded('C11',
+        'Bounded (not a proof): for every ignore specification of size <=2 (names, a foreign name, indices, "*", "**") and every callable '
+        'of the scope, the _keygen output is in 1-1 correspondence with the binding CPython produced with the selected arguments blanked '
+        'out: ignored arguments never influence it, every other argument still does.',
+        'DESIGN.md 5 C11, 3.8',
+        'bounded scope; explicit-instance "self" ignoring and partials fixing keywords are outside it; "not re-evaluated" follows from C02.', TECH_B)
+
+bounded('C17',
+        'Bounded (not a proof): the keys of the C09 scope (48 configurations without builtin hash, with and without ignore specifications) '
+        'are computed in fresh interpreters under 3 (thorough: 8) different PYTHONHASHSEEDs and must be identical; writer/reader sessions with '
+        'different hash seeds on dir, file and sqlite archives x 7 keymaps must serve the reader by loads only.',
+        'DESIGN.md 5 C17, 3.8',
+        'bounded scope; values with process-independent repr/pickle; builtin-hash keymaps excluded as in the statement.',
+        TECH_B + '; fresh interpreter processes per hash seed')
